@@ -552,6 +552,14 @@ fn cmd_check(args: &[String]) -> i32 {
             return 2;
         }
     }
+    {
+        let (sq, st) = meta::supp_runs(prop);
+        let n = ((if tier == "thorough" { st } else { sq }) as f64 * scale) as u64;
+        if let Err(e) = spawn_batch(prop, seed, false, run::SUPP_BASE, run::SUPP_BASE + n, jobs, &out_dir, &mut m) {
+            eprintln!("HARNESS ERROR: {}", e);
+            return 2;
+        }
+    }
     // merge distinct sets / keys / digests
     let mut distinct: HashSet<u64> = HashSet::new();
     let mut digests: HashSet<u64> = HashSet::new();
